@@ -211,10 +211,13 @@ def gen_config(rng, all_atom=None, tier="quick"):
         terminal = [user_key(d) for d in rng.sample(all_descs, k=min(len(all_descs), rng.choice([1, 1, 2])))]
     masses = None
     if not all_atom or rng.random() < 0.2:
-        masses = {f["name"]: rng.choice(BEAD_MASSES + [72, 100, 12]) for f in frags}
-        if rng.random() < 0.3:
-            masses["UNUSED"] = 1.0e9      # entries for names that are not in the fragment set
-            masses["Zz"] = 0.0
+        entries = [(f["name"], rng.choice(BEAD_MASSES + [72, 100, 12])) for f in frags]
+        if rng.random() < 0.4:
+            # a table shared between projects: entries for names that are not in the fragment set
+            entries += [("UNUSED", 1.0e9), ("Zz", 0.0)]
+        if rng.random() < 0.6:
+            rng.shuffle(entries)          # a dict need not list the fragments in fragment-string order
+        masses = dict(entries)
     mass_of = masses or {f["name"]: f["mass"] for f in frags}
     mean_mass = sum(mass_of.values()) / len(mass_of)
     steps = rng.choice([0, 1, 2, 3, 5, 8, 13, 21, 34, 55, 110] if tier == "thorough" else [0, 1, 2, 3, 4, 6, 9, 11, 14, 22, 22] + ([105] if rng.random() < 0.15 else [14]))
